@@ -8,11 +8,13 @@ from vlib.schema import D
 PROP = 'C12'
 VARIANTS = ['asan']
 
-SUB = [D('y', 'int', default=0), D('yl', 'str', F_LIST, default=['k'])]
-SEC = [D('x', 'int', default=9), D('xl', 'int', F_LIST, default=[3]), D('sub', 'sec', F_MULTI, sub=SUB), D('fn', 'func', cbs='F')]
+DEEP = [D('w', 'int', default=0)]
+SUB = [D('y', 'int', default=0), D('yl', 'str', F_LIST, default=['k']), D('deep', 'sec', 0, sub=DEEP)]
+SEC = [D('x', 'int', default=9), D('xl', 'int', F_LIST, default=[3]), D('sub', 'sec', F_MULTI, sub=SUB), D('inner', 'sec', 0, sub=SUB), D('fn', 'func', cbs='F')]
 DECLS = [D('i', 'int', default=1), D('f', 'float', default=0.5), D('b', 'bool', default=0), D('s', 'str', default='d'),
          D('il', 'int', F_LIST, default=[1, 2]), D('sl', 'str', F_LIST, default=['a']),
-         D('sec', 'sec', F_MULTI | F_TITLE, sub=SEC), D('one', 'sec', 0, sub=[D('z', 'int', default=1), D('zs', 'str', default='q')]),
+         D('sec', 'sec', F_MULTI | F_TITLE, sub=SEC), D('one', 'sec', 0, sub=[D('z', 'int', default=1), D('zs', 'str', default='q'), D('inner', 'sec', 0, sub=SUB)]),
+         D('kv', 'sec', core.F_KEYSTRVAL, sub=[D('known', 'str', default='k')]),
          D('fn', 'func', cbs='F'), D('dep', 'int', core.F_DEPRECATED, 3), D('drp', 'str', core.F_DEPRECATED | core.F_DROP, 'old')]
 
 RULE = ('accepted texts over a fixed schema x every item boundary at every depth x generated unknown items (assignment, list incl. empty, append, function call, plain and titled '
@@ -58,7 +60,7 @@ def gen_item(rng, decls, depth=0):
     if d.typ == 'sec':
         head = d.name + (' ' + rng.choice(['a', 'b', '"c d"', 'T']) if d.flags & F_TITLE else '')
         body = [gen_item(rng, d.sub, depth + 1) for _ in range(rng.randint(0, 3))] if depth < 2 else []
-        return ['sec', head, body, [x.name for x in d.sub]]
+        return ['sec', head, body, [x.name for x in d.sub], bool(d.flags & core.F_KEYSTRVAL)]
     if d.typ == 'func':
         return ['leaf', '%s(%s)' % (d.name, ', '.join(rng.choice(['a', '"b c"', '1']) for _ in range(rng.randint(0, 2))))]
     if d.is_list:
@@ -104,6 +106,15 @@ def names_at(items, path):
     return names
 
 
+def in_keyval(items, path):
+    cur = items
+    kv = False
+    for k in path:
+        kv = kv or cur[k][4]
+        cur = cur[k][2]
+    return kv
+
+
 def gen(tier, seed):
     rng = core.seeded_rng(seed, 'c12')
     n = 3000 if tier == 'quick' else 40000
@@ -114,7 +125,8 @@ def gen(tier, seed):
         bs = boundaries(items)
         for b in bs:
             kind, txt = unk_item(rng, 0, names_at(items, b[0]))
-            variants.append([kind, '\n'.join(render(items, {b: txt})) + '\n'])
+            # inside a free-form key=value section an undeclared assignment is a new key when the flag is off
+            variants.append([kind, '\n'.join(render(items, {b: txt})) + '\n', in_keyval(items, b[0])])
         for _ in range(3):
             ins = {}
             kinds = []
@@ -122,10 +134,10 @@ def gen(tier, seed):
                 kind, txt = unk_item(rng, 0, names_at(items, b[0]))
                 ins[b] = txt
                 kinds.append(kind)
-            variants.append(['multi', '\n'.join(render(items, ins)) + '\n'])
+            variants.append(['multi', '\n'.join(render(items, ins)) + '\n', any(in_keyval(items, b[0]) for b in ins)])
         # everything on one line
         kind, txt = unk_item(rng, 0, [d.name for d in DECLS])
-        variants.append([kind, ' '.join(render(items, {((), rng.randint(0, len(items))): txt})) + '\n'])
+        variants.append([kind, ' '.join(render(items, {((), rng.randint(0, len(items))): txt})) + '\n', False])
         yield {'kind': 'ins', 'base': base, 'variants': variants}
     for depth in (100, 1000, 10000, 100000):
         for shape in ('plain', 'titled', 'mixed'):
@@ -149,7 +161,7 @@ def script(spec):
               'init 0 %d %d' % (sid, F_IGNORE_UNKNOWN), 'parse_buf 0 %s' % hx(text), 'vhash 0', 'free 0']
         return '\n'.join(L)
     L += ['init 0 %d %d' % (sid, F_IGNORE_UNKNOWN), 'parse_buf 0 %s' % hx(spec['base']), 'vhash 0', 'free 0']
-    for kind, text in spec['variants']:
+    for kind, text, *_ in spec['variants']:
         L += ['note v', 'init 0 %d %d' % (sid, F_IGNORE_UNKNOWN), 'parse_buf 0 %s' % hx(text), 'vhash 0', 'free 0',
               'note off', 'init 0 %d 0' % sid, 'parse_buf 0 %s' % hx(text), 'free 0']
     return '\n'.join(L)
@@ -196,7 +208,7 @@ def judge(spec, events, death):
         dg = [unhx(e['msg']) for e in g[1:] if e.get('ev') == 'diag']
         if g[0] == 'v':
             vi += 1
-            kind, text = spec['variants'][vi]
+            kind, text = spec['variants'][vi][:2]
             h = [e for e in g[1:] if e.get('ev') == 'vhash']
             v.notes['insertions'] = v.notes.get('insertions', 0) + 1
             v.notes.setdefault('item_kinds', set()).add(kind)
@@ -209,7 +221,9 @@ def judge(spec, events, death):
             elif sorted(dg) != base_diags:
                 v.bad('with-flag:diagnostic:%s' % kind, 'unknown item (%s) changes the diagnostics under ignore-unknown: %r, without it %r; text %r' % (kind, dg[:3], base_diags[:3], text[:200]))
         else:
-            kind, text = spec['variants'][vi]
+            kind, text = spec['variants'][vi][:2]
+            if len(spec['variants'][vi]) > 2 and spec['variants'][vi][2]:
+                continue        # insertion inside a key=value section: without the flag an assignment there is a legitimate new key
             if not r or r[0]['rc'] != 1:
                 v.bad('without-flag:accepted:%s' % kind, 'text with an undeclared item (%s) is accepted without ignore-unknown; text %r' % (kind, text[:300]))
             elif not dg:
